@@ -1,9 +1,421 @@
-//! Thread-gated runs (C03 spawn variants, C08).
-use crate::prog::Prog;
-use crate::runner::{Case, CaseReport, Mode};
+//! Thread-gated runs for the thread-spawning macros (C03 spawn variants, C08).
+//!
+//! One callback per (branch, step) cell is gated: it records its arrival and blocks until the
+//! controller releases it. The controller therefore owns the order in which branch threads
+//! proceed, and can evaluate invariants while it knows exactly who is blocked where.
 
-pub fn run_case(_case: &Case, _prog: &Prog, _mode: &Mode) -> CaseReport {
-    let mut r = CaseReport::new();
-    r.infra.push("threads runner not built".into());
-    r
+use crate::log::{self, Ev, K};
+use crate::model::{self, Expect};
+use crate::oracle::{Obs, Violation};
+use crate::plan::{self, Plan};
+use crate::prog::*;
+use crate::runner::{new_runner, panic_message, reset_all, Case, CaseFn, CaseReport, Mode};
+use crate::sched;
+use crate::sem::Out;
+use proptest::strategy::{Just, Strategy, ValueTree};
+use serde_json::json;
+use std::panic::{catch_unwind, AssertUnwindSafe};
+use std::sync::atomic::{AtomicBool, Ordering};
+use std::sync::Arc;
+use std::time::{Duration, Instant};
+
+fn viol(oracle: &'static str, detail: String) -> Violation {
+    Violation { oracle, detail }
+}
+
+pub struct ThreadRun {
+    pub outcome: Option<Out>,
+    pub panic_msg: Option<String>,
+    pub events: Vec<Ev>,
+    pub violations: Vec<Violation>,
+    pub hung: bool,
+    pub caller_tid: u64,
+}
+
+#[derive(Clone, Debug)]
+pub struct Schedule {
+    /// per step: order in which the branches' gates are released
+    pub order: Vec<Vec<usize>>,
+    /// which call of a cell is gated: 0 first, 1 middle, 2 last
+    pub gate_pos: u8,
+    pub caller_name: Option<String>,
+}
+
+impl Schedule {
+    pub fn to_json(&self) -> serde_json::Value {
+        json!({"order": self.order, "gate_pos": self.gate_pos, "caller_name": self.caller_name})
+    }
+}
+
+/// chooses the gated call of every (branch, step) cell from the model's expected calls
+pub fn choose_gates(exp: &Expect, gate_pos: u8) -> Vec<Vec<(usize, u32)>> {
+    let mut out = Vec::new();
+    for se in &exp.steps {
+        let mut v = Vec::new();
+        for (b, bs) in se.branches.iter().enumerate() {
+            let Some(bs) = bs else { continue };
+            let calls: Vec<u32> = bs.calls.iter().filter(|c| c.k == K::Call).map(|c| c.id).collect();
+            if calls.is_empty() {
+                continue;
+            }
+            let idx = match gate_pos {
+                0 => 0,
+                1 => calls.len() / 2,
+                _ => calls.len() - 1,
+            };
+            v.push((b, calls[idx]));
+        }
+        out.push(v);
+    }
+    out
+}
+
+fn wait_for(pred: impl Fn() -> bool, d: Duration) -> bool {
+    let end = Instant::now() + d;
+    loop {
+        if pred() {
+            return true;
+        }
+        if Instant::now() >= end {
+            return false;
+        }
+        std::thread::sleep(Duration::from_micros(200));
+    }
+}
+
+fn log_has(k: K, id: u32) -> bool {
+    log::snapshot().iter().any(|e| e.k == k && e.id == id)
+}
+
+/// Runs one case under thread control. `rendezvous_deadline` bounds the wait for all gated
+/// branches of a step to arrive; it is only ever waited for on a failing path.
+pub fn run_threaded(case: &Case, prog: &Prog, plan: &Plan, exp: &Expect, gates: &[Vec<(usize, u32)>], sch: &Schedule, mode: &str, rendezvous_deadline: Duration) -> ThreadRun {
+    reset_all();
+    crate::cb::ASYNC_MODE.store(false, Ordering::SeqCst);
+    plan::set(plan.clone());
+    let f = match &case.f {
+        CaseFn::Sync(f) => *f,
+        _ => panic!("threaded run of an async case"),
+    };
+    let done = Arc::new(AtomicBool::new(false));
+    let done2 = done.clone();
+    let mut builder = std::thread::Builder::new();
+    if let Some(n) = &sch.caller_name {
+        builder = builder.name(n.clone());
+    }
+    let worker = builder
+        .spawn(move || {
+            log::ev(0, K::Mark, 0, 0);
+            let r = catch_unwind(AssertUnwindSafe(|| f()));
+            done2.store(true, Ordering::SeqCst);
+            sched::notify();
+            r
+        })
+        .expect("spawn worker");
+    let mut violations = Vec::new();
+    let is_done = || done.load(Ordering::SeqCst);
+    let loc = &exp.loc;
+    let later_events = |s: usize| -> Vec<String> {
+        log::snapshot()
+            .iter()
+            .filter(|e| !matches!(e.k, K::Mark | K::Joiner | K::Fx | K::HExpr))
+            .filter(|e| loc.get(&e.id).map(|l| l.0 != usize::MAX && l.1 > s).unwrap_or(false))
+            .map(|e| e.short())
+            .collect()
+    };
+    'steps: for (s, gs) in gates.iter().enumerate() {
+        if gs.is_empty() {
+            continue;
+        }
+        let ids: Vec<u32> = gs.iter().map(|g| g.1).collect();
+        let multi = prog.active(s).len() > 1;
+        let all_arrived = |arr: &[(u32, u64)]| ids.iter().all(|i| arr.iter().any(|a| a.0 == *i));
+        let ok = sched::wait_until(|arr| all_arrived(arr), || is_done(), if multi { rendezvous_deadline } else { Duration::from_secs(20) });
+        let arr = sched::arrived();
+        let complete = all_arrived(&arr);
+        if !complete {
+            if is_done() {
+                break 'steps;
+            }
+            let _ = ok;
+            if multi && mode == "C08" {
+                let here: Vec<u32> = ids.iter().copied().filter(|i| arr.iter().any(|a| a.0 == *i)).collect();
+                violations.push(viol(
+                    "rendezvous",
+                    format!("step {}: only gates {:?} of {:?} were reached while all were held closed: the branches of the step are not all running at the same time", s, here, ids),
+                ));
+            }
+            // do not deadlock on a serialising implementation: let everything through
+            sched::open_all();
+            break 'steps;
+        }
+        // ---- every gated branch of the step is now blocked inside its callback
+        if mode == "C03T" {
+            let later = later_events(s);
+            if !later.is_empty() {
+                violations.push(viol("barrier", format!("step {}: all branches are still inside step {} but later-step events exist: {:?}", s, s, later)));
+            }
+            if is_done() {
+                violations.push(viol("barrier", format!("step {}: macro returned while branches were blocked in step {}", s, s)));
+            }
+        }
+        if mode == "C08" && multi {
+            let mut tids: Vec<u64> = gs.iter().filter_map(|g| arr.iter().find(|a| a.0 == g.1).map(|a| a.1)).collect();
+            tids.sort();
+            let n = tids.len();
+            tids.dedup();
+            if tids.len() != n {
+                violations.push(viol("threads", format!("step {}: {} blocked branches share threads ({} distinct)", s, n, tids.len())));
+            }
+        }
+        // ---- release in the scheduled order
+        let order: Vec<usize> = sch.order.get(s).cloned().unwrap_or_default();
+        let mut seq: Vec<(usize, u32)> = Vec::new();
+        for b in &order {
+            if let Some(g) = gs.iter().find(|g| g.0 == *b) {
+                seq.push(*g);
+            }
+        }
+        for g in gs {
+            if !seq.contains(g) {
+                seq.push(*g);
+            }
+        }
+        for (i, (b, id)) in seq.iter().enumerate() {
+            let last = i + 1 == seq.len();
+            if last && mode == "C03T" && seq.len() > 1 {
+                // the other branches have been let go; give them a moment to (wrongly) run ahead
+                for (pb, _) in seq.iter().take(i) {
+                    if let Some(Some(bs)) = exp.steps.get(s).map(|se| se.branches[*pb].as_ref()) {
+                        if let Some(lastc) = bs.calls.iter().rev().find(|c| c.k == K::Call) {
+                            let lid = lastc.id;
+                            wait_for(|| log_has(K::Call, lid), Duration::from_millis(50));
+                        }
+                    }
+                }
+                std::thread::sleep(Duration::from_millis(1));
+                let later = later_events(s);
+                if !later.is_empty() {
+                    violations.push(viol("barrier", format!("step {}: branch {} is still blocked in step {} but later-step events exist: {:?}", s, b, s, later)));
+                }
+                if is_done() {
+                    violations.push(viol("barrier", format!("step {}: macro returned while branch {} was blocked", s, b)));
+                }
+            }
+            if last && mode == "C08" && is_done() {
+                violations.push(viol("threads", format!("step {}: caller continued before branch {} finished", s, b)));
+            }
+            sched::release(*id);
+            wait_for(|| log_has(K::Pass, *id), Duration::from_secs(5));
+        }
+    }
+    let finished = wait_for(|| is_done(), Duration::from_secs(20));
+    let mut hung = false;
+    if !finished {
+        sched::open_all();
+        if !wait_for(|| is_done(), Duration::from_secs(10)) {
+            hung = true;
+        }
+    }
+    let (outcome, panic_msg) = if hung {
+        (None, Some("worker did not finish".to_string()))
+    } else {
+        match worker.join() {
+            Ok(Ok(o)) => (Some(o), None),
+            Ok(Err(p)) => (None, Some(panic_message(&p))),
+            Err(p) => (None, Some(panic_message(&p))),
+        }
+    };
+    let events = log::snapshot();
+    let caller_tid = events.iter().find(|e| e.k == K::Mark).map(|e| e.tid).unwrap_or(0);
+    ThreadRun { outcome, panic_msg, events, violations, hung, caller_tid }
+}
+
+/// C08 oracle over the final log: thread identity and names of every callback invocation
+pub fn thread_oracle(prog: &Prog, exp: &Expect, events: &[Ev], caller_tid: u64, caller_name: &Option<String>) -> Vec<Violation> {
+    let mut out = Vec::new();
+    for (s, se) in exp.steps.iter().enumerate() {
+        let active = prog.active(s);
+        let multi = active.len() > 1;
+        let mut tid_of_branch: Vec<(usize, u64)> = Vec::new();
+        for e in events.iter().filter(|e| e.k == K::Call) {
+            let Some(&(b, es)) = exp.loc.get(&e.id) else { continue };
+            if es != s || b == usize::MAX {
+                continue;
+            }
+            if se.branches[b].is_none() {
+                continue;
+            }
+            if multi {
+                let want = match caller_name {
+                    Some(n) => format!("{}_join_{}", n, b),
+                    None => format!("join_{}", b),
+                };
+                if e.tname.as_deref() != Some(want.as_str()) {
+                    out.push(viol("threads", format!("step {} branch {}: callback {} ran on thread named {:?}, expected {:?}", s, b, e.short(), e.tname, want)));
+                }
+                if e.tid == caller_tid {
+                    out.push(viol("threads", format!("step {} branch {}: callback {} ran on the calling thread although {} branches are active", s, b, e.short(), active.len())));
+                }
+                match tid_of_branch.iter().find(|x| x.0 == b) {
+                    Some((_, t)) if *t != e.tid => out.push(viol("threads", format!("step {} branch {}: callbacks ran on two threads", s, b))),
+                    Some(_) => {}
+                    None => {
+                        if let Some((ob, _)) = tid_of_branch.iter().find(|x| x.1 == e.tid) {
+                            out.push(viol("threads", format!("step {}: branches {} and {} ran on the same thread", s, ob, b)));
+                        }
+                        tid_of_branch.push((b, e.tid));
+                    }
+                }
+            } else if e.tid != caller_tid {
+                out.push(viol("threads", format!("step {} branch {}: single active branch ran {} on thread {:?}, not on the calling thread", s, b, e.short(), e.tname)));
+            }
+        }
+    }
+    out.truncate(8);
+    out
+}
+
+fn permutations(items: &[usize], limit: usize) -> Vec<Vec<usize>> {
+    fn rec(cur: &mut Vec<usize>, rest: &mut Vec<usize>, out: &mut Vec<Vec<usize>>, limit: usize) {
+        if out.len() >= limit {
+            return;
+        }
+        if rest.is_empty() {
+            out.push(cur.clone());
+            return;
+        }
+        for i in 0..rest.len() {
+            let x = rest.remove(i);
+            cur.push(x);
+            rec(cur, rest, out, limit);
+            cur.pop();
+            rest.insert(i, x);
+        }
+    }
+    let mut out = Vec::new();
+    rec(&mut Vec::new(), &mut items.to_vec(), &mut out, limit);
+    out
+}
+
+/// Schedules for one program: per step a permutation of the active branches. All combinations
+/// when there are few, otherwise proptest-shuffled ones.
+pub fn schedules(prog: &Prog, budget: usize, seed: u64) -> (Vec<Schedule>, bool) {
+    let steps = prog.max_steps();
+    let names = [None, Some("main".to_string()), Some("w_join_3".to_string()), Some("odd name-1".to_string())];
+    let per_step: Vec<Vec<Vec<usize>>> = (0..steps).map(|s| permutations(&prog.active(s), 24)).collect();
+    let total: usize = per_step.iter().map(|p| p.len()).product();
+    let mut out = Vec::new();
+    if total <= budget {
+        // cartesian product
+        let mut idx = vec![0usize; steps];
+        let mut k = 0;
+        loop {
+            let order: Vec<Vec<usize>> = (0..steps).map(|s| per_step[s][idx[s]].clone()).collect();
+            out.push(Schedule { order, gate_pos: (k % 3) as u8, caller_name: names[k % names.len()].clone() });
+            k += 1;
+            let mut i = 0;
+            while i < steps {
+                idx[i] += 1;
+                if idx[i] < per_step[i].len() {
+                    break;
+                }
+                idx[i] = 0;
+                i += 1;
+            }
+            if i == steps {
+                break;
+            }
+        }
+        (out, true)
+    } else {
+        let mut runner = new_runner(seed, 0x7ead, 1);
+        for k in 0..budget {
+            let order: Vec<Vec<usize>> = (0..steps)
+                .map(|s| {
+                    let act = prog.active(s);
+                    if k == 0 {
+                        act
+                    } else {
+                        Just(act).prop_shuffle().new_tree(&mut runner).unwrap().current()
+                    }
+                })
+                .collect();
+            out.push(Schedule { order, gate_pos: (k % 3) as u8, caller_name: names[k % names.len()].clone() });
+        }
+        (out, false)
+    }
+}
+
+pub fn run_case(case: &Case, prog: &Prog, mode: &Mode) -> CaseReport {
+    let mut rep = CaseReport::new();
+    let m = mode.name.as_str();
+    let plan0 = Plan::all_good();
+    let (scheds, exhaustive) = schedules(prog, mode.budget.max(1), mode.seed ^ case.idx as u64);
+    rep.class(if exhaustive { "schedules_exhaustive" } else { "schedules_sampled" });
+    let kind = prog.kind();
+    for (si, sch) in scheds.iter().enumerate() {
+        // mostly the all-succeed plan; every 4th schedule one failing decision point (non-try
+        // macros carry the failing value on, try macros stop early: both must keep the invariants)
+        let mut plan = plan0.clone();
+        if si % 4 == 3 {
+            let ids = model::decision_ids(prog);
+            if !ids.is_empty() {
+                plan.bad = vec![ids[(si / 4) % ids.len()]];
+            }
+        }
+        let exp0 = model::interpret(prog, &plan);
+        let gates = choose_gates(&exp0, sch.gate_pos);
+        plan.gates = gates.iter().flatten().map(|g| g.1).collect();
+        let exp = exp0;
+        // C03: expiry only unblocks the run (no verdict depends on it); C08: verdict, confirmed below
+        let mut deadline = if m == "C08" { Duration::from_secs(10) } else { Duration::from_secs(2) };
+        let mut tr = run_threaded(case, prog, &plan, &exp, &gates, sch, m, deadline);
+        if tr.violations.iter().any(|v| v.oracle == "rendezvous") {
+            // the only wall-clock dependent verdict: confirm with a doubled deadline
+            deadline *= 2;
+            tr = run_threaded(case, prog, &plan, &exp, &gates, sch, m, deadline);
+        }
+        rep.runs += 1;
+        if tr.hung {
+            rep.infra.push(format!("worker thread did not finish under schedule {}", sch.to_json()));
+            break;
+        }
+        let mut vs = tr.violations.clone();
+        let obs = Obs { prog, exp: &exp, events: &tr.events, outcome: tr.outcome.as_ref() };
+        match m {
+            "C03T" => vs.extend(obs.barrier_log()),
+            "C08" => vs.extend(thread_oracle(prog, &exp, &tr.events, tr.caller_tid, &sch.caller_name)),
+            _ => {}
+        }
+        let n = prog.branches.len();
+        let depths = prog.depths();
+        let non_identity = sch.order.iter().enumerate().any(|(s, o)| *o != prog.active(s));
+        let multi_steps = (0..prog.max_steps()).filter(|s| prog.active(*s).len() > 1).count();
+        let single_steps = (0..prog.max_steps()).filter(|s| prog.active(*s).len() == 1).count();
+        let nt = match m {
+            "C03T" => n >= 2 && prog.max_steps() >= 2 && (depths.iter().any(|d| *d != depths[0]) || non_identity),
+            _ => multi_steps >= 1 && (single_steps >= 1 || sch.caller_name.as_deref().map(|n| n.contains("_join_")).unwrap_or(false)),
+        };
+        if nt {
+            rep.nontrivial += 1;
+            if rep.samples.is_empty() {
+                rep.samples.push(json!({"schedule": sch.to_json(), "plan": plan.to_json(), "n_events": tr.events.len()}));
+            }
+        }
+        rep.class(&format!("gate_pos={}", sch.gate_pos));
+        rep.class(&format!("caller_named={}", sch.caller_name.is_some()));
+        if non_identity {
+            rep.class("non_identity_release_order");
+        }
+        if single_steps > 0 {
+            rep.class("has_single_active_step");
+        }
+        let _ = kind;
+        if !vs.is_empty() {
+            rep.violation(&plan, json!({"schedule": sch.to_json(), "panic": tr.panic_msg}), &vs, &tr.events);
+            break;
+        }
+    }
+    rep
 }
